@@ -373,4 +373,17 @@ def r6(ctx):
 
 EXPLANATION = EXPLANATION + ' (R5) repository idioms; (R6) no state effect before authentication (shared C01.R4): forged datagrams cannot consume sequence numbers or refresh liveness of an honest peer.'
 
-RULES = [("C11.R1", r1), ("C11.R2", r2), ("C11.R3", r3), ("C11.R4", r4), ("C11.R5", r_enum), ("C11.R6", r6)]
+def r_shared_r7(ctx):
+    """what the receive path lets through to a connection is what the header parse admits: magic and direction are read from the
+    wire (a datagram addressed to the client, sent back to the server under a client's address, decrypts under the shared session
+    key - only the direction test keeps the server's own sequence numbers out of that client's receive window) (shared C01.R2)"""
+    from . import c01 as _m
+    from .c02 import _Sub
+    _m.r2(_Sub(ctx, "C11.R7"))
+
+
+EXPLANATION = EXPLANATION + (" (R7) the header parse admits only well-formed datagrams of the right direction, the direction being read from the wire "
+                             "(shared C01.R2): the server's own datagrams reflected at it from a client's address decrypt under the session key, and only the "
+                             "direction test keeps them from filling that client's receive window and so disturbing an established client.")
+
+RULES = [("C11.R1", r1), ("C11.R2", r2), ("C11.R3", r3), ("C11.R4", r4), ("C11.R5", r_enum), ("C11.R6", r6), ("C11.R7", r_shared_r7)]
